@@ -230,14 +230,15 @@ def check(run):
             built.append((d, m, a))
             swept += 1
         # quick: one round trip per function, after all its calls (a cache filled by any of them is still there)
-        for d, m, a in (built[-1:] if quick else built):
+        # thorough: a round trip after each of up to three calls per function (all 12 templates took an hour)
+        for d, m, a in (built[-1:] if quick else built[:2] + built[-1:]):
             case = {'workbook': d, 'stream': 'function-sweep', 'evaluated_before': [x[0][P + 'C1'] for x in built]}
             run.count(1, ('sweep', d[P + 'C1']), True, 'function-sweep')
             for method in (('dill',) if quick else ('dill', 'deepcopy')):
                 try:
                     cp = dill.loads(dill.dumps(m)) if method == 'dill' else copy.deepcopy(m)
                     b = vals_of(cp.calculate())
-                    sm = small_vals if quick else vals_of((dill.loads(dill.dumps(small)) if method == 'dill' else copy.deepcopy(small)).calculate())
+                    sm = small_vals if (quick or d is not built[-1][0]) else vals_of((dill.loads(dill.dumps(small)) if method == 'dill' else copy.deepcopy(small)).calculate())
                 except Exception as ex:
                     run.violation('after evaluating %s, %s of a model raises %s: %s' % (case['evaluated_before'] if quick else d[P + 'C1'], method, type(ex).__name__, str(ex)[:100]),
                                   dict(case, method=method))
